@@ -182,6 +182,25 @@ def check(ctx, rng, kind, ptr, endian, align, compiled):
         else:
             ctx.event("cached_dereferences_without_stream_events")
         ctx.event("stream_events_during_first_dereference", n1 - n0)
+    # a dereferenced structure belongs to the pointer it came from: modifying it must not change what another
+    # pointer to the same address, or a second parse from the same stream object, dereferences to
+    if kind == "struct":
+        ctx.evaluation((case["text"], tuple(sorted(cfgd.items())), data.hex(), "deref-independence"))
+        try:
+            t1 = o.p.dereference()
+            first = T.fields["p"].type.type.__fields__[0]._name
+            setattr(t1, first, (int(getattr(t1, first)) + 1) % 100)
+            s.seek(struct_at)
+            o2 = T(s)
+            same_addr = o.arr[0] + (targets[0][0] - targets[1][0])
+            for label, ptr_ in (("second-parse-from-the-same-stream", o2.p), ("another-pointer-to-the-same-address", same_addr)):
+                got2 = lib.nan_clean(lib.norm(ptr_.dereference(), tgt))
+                if got2 != targets[0][1]:
+                    viol("deref", f"dereferenced-target-shared:{label}", data=data, got=got2, want=targets[0][1])
+                else:
+                    ctx.event("dereference_independence_checked")
+        except Exception as e:  # noqa: BLE001
+            viol("deref", f"dereference-independence-check-raises:{type(e).__name__}", data=data, error=lib.exc_sig(e))
     # arithmetic keeps type and stream
     if kind == "scalar":
         p = o.p
@@ -277,6 +296,27 @@ def check(ctx, rng, kind, ptr, endian, align, compiled):
             viol("range", "out-of-range-address-dumped", bad=bad, dump=dd)
         except Exception:  # noqa: BLE001
             ctx.event("out_of_range_address_rejected")
+    # target cut off by the end of the stream (for char: no terminator before the end): an error, never a value
+    ctx.evaluation((case["text"], tuple(sorted(cfgd.items())), "truncated-target"))
+    addr0 = targets[0][0]
+    if tgt["k"] == "char":
+        cut = addr0 + len(targets[0][1])          # everything but the terminator
+    elif tgt["k"] == "ptr":
+        cut = addr0 + max(1, width // 2) if width > 1 else addr0
+    else:
+        # cut inside the last data-carrying byte of the target (trailing padding of an aligned target may be missing)
+        _, tmask = model.dump(tgt, model.random_value(tgt, rng, cfg), cfg)
+        cut = addr0 + max(0, model.last_data_byte(tmask))
+    if cut > struct_at + size:
+        try:
+            ot = T(RecordingStream(data[:cut], struct_at))
+            try:
+                x = ot.p.dereference()
+                viol("range", "dereference-of-a-truncated-target-returns-a-value", got=repr(x), cut=cut)
+            except Exception:  # noqa: BLE001
+                ctx.event("dereference_of_truncated_target_raises")
+        except Exception:  # noqa: BLE001
+            pass
     # address beyond the stream: an error, never a value
     if limit > len(data) + 8:
         far_raw, _ = model.dump(top, dict(val, p=len(data) + 4), cfg)
@@ -284,8 +324,7 @@ def check(ctx, rng, kind, ptr, endian, align, compiled):
             of = T(far_raw + data[len(far_raw):])
             try:
                 x = of.p.dereference()
-                if tgt["k"] != "char":
-                    viol("range", "dereference-beyond-the-stream-returns-a-value", got=repr(x))
+                viol("range", "dereference-beyond-the-stream-returns-a-value", got=repr(x))
             except Exception:  # noqa: BLE001
                 ctx.event("dereference_beyond_stream_raises")
         except Exception:  # noqa: BLE001
